@@ -294,6 +294,7 @@ TREE_SHAPES = {
     "linear": ([-1, 0, 1, 2], [[0], [1], [2], [3]]),
     "star": ([-1, 0, 0, 0], [[0], [1], [2], [3]]),
     "virtual-root+pair": ([-1, 0, 0, 2], [[], [0, 1], [2], [3]]),
+    "single-node": ([-1], [[0, 1, 2, 3]]),
 }
 
 
@@ -502,7 +503,7 @@ def cases(tier, seed):
 
 def tree_cases(tier):
     D = tree_derivations()
-    shapes = list(TREE_SHAPES) if tier != "quick" else ["star", "virtual-root+pair"]
+    shapes = list(TREE_SHAPES) if tier != "quick" else ["star", "virtual-root+pair", "single-node"]
     for shape in shapes:
         for m in D:
             yield {"fam": "tree:" + shape, "m": m, "m2": None}
@@ -511,7 +512,7 @@ def tree_cases(tier):
         for m in TREE_PRODUCING2:
             for m2 in D:
                 if m2 not in TREE_PRODUCING2:
-                    if tier == "quick" and shape != "star":
+                    if tier == "quick" and shape not in ("star", "single-node"):
                         continue
                     yield {"fam": "tree:" + shape, "m": m, "m2": m2}
 
@@ -652,7 +653,7 @@ def run_case(desc, seed):
             sig = sig.replace("C13:", "C13:tree:", 1)
         if sig not in viol:
             viol[sig] = {"sig": sig, "msg": f"[{fam}] program: b={m}(a)" + (f"; c={m2}(b)" if m2 else "") + f" -- {msg}"}
-    return {"nontrivial": status in ("ok", "aborted") and maxbond > 1, "states": 1 + transitions, "transitions": transitions,
+    return {"nontrivial": status in ("ok", "aborted") and (maxbond > 1 or fam.endswith("single-node")), "states": 1 + transitions, "transitions": transitions,
             "viol": list(viol.values()), "rejected": 1 if status == "refused" else 0,
             "counters": {"refused_programs": int(status == "refused"), "aborted_drivers": int(status == "aborted"), "mutations_run": nmut},
             "outcome": f"{status}:{'viol' if viol else 'ok'}",
